@@ -104,6 +104,9 @@ var detailFaults = []struct {
 	{"many", []string{"d0", "d1", "d2", "d3"}},
 	{"stacklike", []string{"main.f\n\t/x/y.go:12\nmain.g\n\t/x/z.go:3"}},
 	{"elide", []string{"elide"}},
+	{"leading-newline", []string{"\nsecond line", "d1"}},
+	{"only-newline", []string{"\n"}},
+	{"trailing-cr", []string{"first\r\nsecond\r"}},
 	// printed-stack look-alikes with irregular continuation lines
 	{"stack-nocolon", []string{"main.main\n\t<autogenerated>"}},
 	{"stack-colon-nonumber", []string{"main.main\n\t/x/y.go:"}},
@@ -593,6 +596,40 @@ func runC05(c *core.Ctx, r *core.Result) {
 		}
 	}
 	r.Count("registration_histories", int64(nh))
+	// Part 4: chain length. A single-cause chain of n wrappers around a
+	// leaf, for every n up to 40 and for lengths around the powers of two
+	// and round numbers a decoder might take as a bound, with a known
+	// wrapper type, an unknown one, and alternating.
+	var lens []int
+	for n := 0; n <= 40; n++ {
+		lens = append(lens, n)
+	}
+	for _, c0 := range []int{64, 100, 128, 256, 500, 512, 1000} {
+		for d := -1; d <= 2; d++ {
+			lens = append(lens, c0+d)
+		}
+	}
+	hintKey := string(errors.GetTypeKey(errors.WithHint(errors.New("x"), "h")))
+	nl := 0
+	for _, n := range lens {
+		for mode := 0; mode < 3; mode++ {
+			enc := plainLeaf("bottom")
+			for k := 0; k < n; k++ {
+				key := hintKey
+				if mode == 1 || (mode == 2 && k%2 == 1) {
+					key = "verif/unknown.Wrapper"
+				}
+				var pl *types.Any
+				if key == hintKey {
+					pl = anyOf(&errorspb.StringPayload{Msg: "h"})
+				}
+				enc = &errorspb.EncodedError{Error: &errorspb.EncodedError_Wrapper{Wrapper: &errorspb.EncodedWrapper{Cause: *enc, Message: "w", Details: mkDetails(key, []string{"d"}, pl), MessageType: errorspb.MessageType_PREFIX}}}
+			}
+			nl++
+			visit(c05State{Family: hintKey, Form: 2, Position: fmt.Sprintf("chain of %d wrappers (mode %d)", n, mode), Desc: "chain length"}, enc)
+		}
+	}
+	r.Count("chain_lengths", int64(nl))
 }
 
 func pickFault(kind, name, want string) string {
